@@ -133,6 +133,42 @@ theorem finishText_mem (s : Slots) (x : Str) {k : Str} {v : List HVal} (hm : (k,
   rw [finishText_headers]
   exact mem_setdefault hm
 
+theorem has_setdefault_other (h : Hdrs) (k k' : Str) (v : HVal) (hne : (k == k') = false) :
+    (h.setdefault k v).1.has k' = h.has k' := by
+  unfold Hdrs.setdefault
+  split
+  · rfl
+  · simp only [Hdrs.has, List.any_append, List.any_cons, List.any_nil, Bool.or_false, hne]
+
+theorem mem_set_self (h : Hdrs) (k : Str) (v : List HVal) : (k, v) ∈ Hdrs.set h k v := by
+  induction h with
+  | nil => simp [Hdrs.set]
+  | cons p ps ih =>
+    obtain ⟨a, b⟩ := p
+    unfold Hdrs.set
+    split
+    · exact List.mem_cons_self ..
+    · exact List.mem_cons_of_mem _ ih
+
+/-- the default `Content-Type` is emitted when the store has none and the status withholds nothing -/
+theorem headerlist_default_ctype (st : RState) (hl : List (Str × Str)) (h : headerlist st = some hl)
+    (hhas : st.headers.has "Content-Type".toList = false) (hbad : (badHeadersFor st.code).isEmpty = true) :
+    ("Content-Type".toList, Gen.wsgiDefaultContentType.toList) ∈ hl := by
+  unfold headerlist at h
+  split at h
+  · cases h
+  · simp only [Option.some.injEq] at h
+    subst h
+    simp only [needCtype, hbad, hhas, Bool.not_false, Bool.and_self, if_true, List.mem_append,
+      List.mem_singleton, or_true, true_or]
+
+theorem contains_of_isEmpty {l : List Str} (h : l.isEmpty = true) (k : Str) : l.contains k = false := by
+  cases l with
+  | nil => rfl
+  | cons _ _ => cases h
+
+theorem json_ctype_ascii : recodeLatin1 "application/json".toList = "application/json".toList := by decide
+
 /-! ### the packaged statement -/
 
 /-- what the server sees when a framework error object `e` (body `body`) leaves `_handle`:
@@ -149,15 +185,18 @@ structure ErrorServed (app : Wsgi.App) (s : Slots) (r : Wsgi.Req) (e : RState) (
          (r.json = true ∧ jsonPage body = some x)
   kept : ∀ k v, (k, [HVal.good v]) ∈ e.headers → k ≠ "Content-Type".toList →
     (badHeadersFor e.code).contains (titleAscii k) = false → (k, recodeLatin1 v) ∈ hl
+  ctype : e.headers.has "Content-Type".toList = false → (badHeadersFor e.code).isEmpty = true →
+    ("Content-Type".toList,
+      if r.json then "application/json".toList else Gen.wsgiDefaultContentType.toList) ∈ hl
 
-/-- **`wsgi_error_page`.**  A decodable request whose `_handle` ends in an error object `e`
-without custom handler for its status (and, when JSON is requested, a body `json.dumps` accepts):
-one `start_response(e.line, headerlist)` after the events of `_handle`; the body is the default
-error handler's page — `error_render.render` on `request.url` or the JSON text — as one chunk,
-dropped for HEAD / body-less statuses; nothing to close; the headers of the error object itself
-(`Allow`) are in the list. -/
-theorem wsgi_error_page (app : Wsgi.App) (s : Slots) (r : Wsgi.Req) (hp : r.pathOK = true)
-    (e : RState) (body : Out) (hflow : handleFlow app r = .resp (.resp true e body))
+/-- **`wsgi_error_page`.**  A request whose `_handle` returns an error object `e` without custom
+handler for its status (and, when JSON is requested, a body `json.dumps` accepts): one
+`start_response(e.line, headerlist)` after the events of `_handle`; the body is the default error
+handler's page — `error_render.render` on `request.url` or the JSON text — as one chunk, dropped
+for HEAD / body-less statuses; nothing to close; the headers of the error object itself (`Allow`)
+and the page's `Content-Type` are in the list. -/
+theorem wsgi_error_page_of_out (app : Wsgi.App) (s : Slots) (r : Wsgi.Req)
+    (e : RState) (body : Out) (hout : (handle app s r).2.2 = .resp true e body)
     (hno : errHandlerFor app e.code = none) (hgood : AllGood e.headers)
     (hj : r.json = true → (jsonPage body).isSome = true) :
     ∃ x hl, ErrorServed app s r e body x hl := by
@@ -178,13 +217,18 @@ theorem wsgi_error_page (app : Wsgi.App) (s : Slots) (r : Wsgi.Req) (hp : r.path
         (renderPage e.line r.urlRepr (fmtBody body))).1.resp.headers :=
       finishText_allGood _ _ hgood
     obtain ⟨hl, hhl⟩ := headerlist_some_of_good _ hg1
-    obtain ⟨h1, h2, h3, h4⟩ := wsgi_of_error app s r hp e body hflow hno _ _ (by rw [hs0]; exact hex) hl hhl
-    refine ⟨_, hl, h1, h2, h3, ?_, ?_, Or.inl ⟨hjs, rfl⟩, ?_⟩
+    obtain ⟨h1, h2, h3, h4⟩ := wsgi_of_error_out app s r e body hout hno _ _ (by rw [hs0]; exact hex) hl hhl
+    refine ⟨_, hl, h1, h2, h3, ?_, ?_, Or.inl ⟨hjs, rfl⟩, ?_, ?_⟩
     · rw [h4]; rfl
     · rw [h4]; exact hhl
     · intro k v hm _ hkeep
       refine headerlist_mem _ hl hhl k v ?_ hkeep
       exact finishText_mem _ _ hm
+    · intro hhas hbad
+      simp only [hjs, Bool.false_eq_true, if_false]
+      refine headerlist_default_ctype _ hl hhl ?_ hbad
+      rw [finishText_headers, has_setdefault_other _ _ _ _ (by decide)]
+      exact hhas
   | true =>
     rw [hjs] at hex
     simp only [if_true] at hex
@@ -198,13 +242,38 @@ theorem wsgi_error_page (app : Wsgi.App) (s : Slots) (r : Wsgi.Req) (hp : r.path
           (setJsonCtype (withResp s0 (apply e s0.resp)).resp)) j).1.resp.headers :=
         finishText_allGood _ _ (allGood_set (h := e.headers) hgood _ _)
       obtain ⟨hl, hhl⟩ := headerlist_some_of_good _ hg1
-      obtain ⟨h1, h2, h3, h4⟩ := wsgi_of_error app s r hp e body hflow hno _ _ (by rw [hs0]; exact hex) hl hhl
-      refine ⟨j, hl, h1, h2, h3, ?_, ?_, Or.inr ⟨hjs, hjp⟩, ?_⟩
+      obtain ⟨h1, h2, h3, h4⟩ := wsgi_of_error_out app s r e body hout hno _ _ (by rw [hs0]; exact hex) hl hhl
+      refine ⟨j, hl, h1, h2, h3, ?_, ?_, Or.inr ⟨hjs, hjp⟩, ?_, ?_⟩
       · rw [h4]; rfl
       · rw [h4]; exact hhl
       · intro k v hm hne hkeep
         refine headerlist_mem _ hl hhl k v ?_ hkeep
         exact finishText_mem _ _ (mem_set_other (h := e.headers) hm hne)
+      · intro _ hbad
+        simp only [hjs, if_true]
+        have := headerlist_mem _ hl hhl "Content-Type".toList "application/json".toList
+          (finishText_mem _ _ (mem_set_self e.headers _ _)) (contains_of_isEmpty hbad _)
+        rw [json_ctype_ascii] at this
+        exact this
+
+/-- the same, from the program alone, for a decodable path -/
+theorem wsgi_error_page (app : Wsgi.App) (s : Slots) (r : Wsgi.Req) (hp : r.pathOK = true)
+    (e : RState) (body : Out) (hflow : handleFlow app r = .resp (.resp true e body))
+    (hno : errHandlerFor app e.code = none) (hgood : AllGood e.headers)
+    (hj : r.json = true → (jsonPage body).isSome = true) :
+    ∃ x hl, ErrorServed app s r e body x hl := by
+  obtain ⟨hout, _⟩ := handle_out app s r hp
+  rw [hflow] at hout
+  simp only [settle] at hout
+  exact wsgi_error_page_of_out app s r e body hout hno hgood hj
+
+/-- an undecodable `PATH_INFO`: `_handle` returns the 400 object right away -/
+theorem handle_out_undecodable (app : Wsgi.App) (s : Slots) (r : Wsgi.Req) (hp : r.pathOK = false) :
+    (handle app s r).2.2 = .resp true { code := 400, line := lineOfCode 400, headers := [], cookies := [] }
+      (.text "Invalid path string. Expected UTF-8".toList) ∧ (handle app s r).2.1 = [] := by
+  unfold handle handleFrom
+  simp only [hp, Bool.not_false, if_true]
+  exact ⟨rfl, trivial⟩
 
 /-! ### a found route -/
 
